@@ -104,6 +104,7 @@ def _h0_case(draw, mode):
         "block": draw(st.integers(0, len(sizes) - 1)), "block2": draw(st.integers(0, len(sizes) - 1)),
         "orientation": draw(st.sampled_from(["left", "left", "right", "explicit"] if nh else ["right", "right", "explicit"])),
         "atol_opt": draw(st.sampled_from([None, 1e-12, 1e-8])),
+        "tight": mode == "direct" and draw(st.integers(0, 4)) == 0,
     }
     if mode == "greens":
         case["dtype"] = draw(st.sampled_from(["float64", "complex128", "float32", "complex64"]))
@@ -161,6 +162,11 @@ def build_h0(case):
                 S[a, b] = 0.5 * c
                 R = R @ S
     E = np.array([complex(e[0], e[1]) for e in case["E"]])
+    if case.get("tight") and case["sizes"][0] >= 2:
+        # two distinct explicit levels that are close *relative to their magnitude*: 128 and 128 + 2^-10
+        # (difference 9.8e-4 < 1e-5 * 128 but far above every absolute tolerance); all numbers exactly representable
+        E = E + (128 - E[0].real)
+        E[1] = E[0] + 2.0**-10
     if not case["nh"]:
         E = E.real
     Rinv = np.linalg.inv(R)
